@@ -29,8 +29,21 @@ func checkC13(r *Run) {
 		if b.DottedPath {
 			b.Tags = append(b.Tags, "dotted-import-path")
 		}
+		label := fmt.Sprintf("separate-package/override=%v", override)
+		switch {
+		case len(pairs)%4 == 2:
+			// the terraform package is named like the struct package (another directory)
+			b.SameName = true
+			b.Tags = append(b.Tags, "same-package-name")
+			label += "/same-name"
+		case override && len(pairs)%4 == 0:
+			// go_package points elsewhere: only import_path_overrides knows where the structs are
+			b.ForeignGoPackage = true
+			b.Tags = append(b.Tags, "foreign-go-package")
+			label += "/foreign-go-package"
+		}
 		cases = append(cases, a, b)
-		pairs = append(pairs, rt.Pair{A: a.Name, B: b.Name, PRF: a.Name, Label: fmt.Sprintf("separate-package/override=%v", override)})
+		pairs = append(pairs, rt.Pair{A: a.Name, B: b.Name, PRF: a.Name, Label: label})
 	}
 	cur := []func() *descgen.Entry{descgen.K1, descgen.K2, descgen.K3, descgen.K4, descgen.K5, func() *descgen.Entry { return descgen.K6(0) },
 		func() *descgen.Entry { return descgen.K6(1) }, descgen.K7, descgen.K8, descgen.K9, func() *descgen.Entry { return descgen.K10(false) }, func() *descgen.Entry { return descgen.K10(true) }}
